@@ -7,6 +7,8 @@ must stay silent (exit 0, same known findings) on behaviour-preserving edits:
   N2  every function-local variable that no nested scope captures renamed (tools/rename_locals.py): rules must recognise values by
       what they are (definition, position, role in a call), not by the name of the local that holds them; finding keys must not
       contain local names
+  N3  every run of consecutive plain method / function definitions reversed; SQL library files re-indented with a comment line before
+      every CREATE (tools/reorder_defs.py): nothing may depend on the order of definitions or on positions inside the .sql files
 must fire (exit 1, VIOLATION) on variants that break the property while still compiling:
   S*  every change kept under /verif/seeded/<ID>_*/ that names this property in `caught_by`
   F*  the repository's own `fix:` commits for this property applied in reverse (from known_findings.txt `fixed:` lines)
@@ -143,6 +145,20 @@ def run_for(prop: str) -> int:
             results.append({"variant": "N2:function-local variables renamed", "renamed": nren, "expected": "silent, same known findings", "exit": rc, "ok": ok})
             if not ok:
                 failures.append(f"N2 (behaviour-preserving renaming of {nren} function-local variables): exit {rc}; " + ("; ".join(x[:200] for x in v[:2]) if v else f"known findings differ: {sorted(set(k) ^ set(k0))[:2]}"))
+        # N3
+        n3root = base / "n3"
+        n3root.mkdir()
+        _copy_tree(n3root)
+        rr = subprocess.run([PY, str(VERIF / "tools" / "reorder_defs.py"), str(n3root)], capture_output=True, text=True, timeout=600)
+        nre = int((rr.stdout.strip().splitlines() or ["0"])[-1]) if rr.returncode == 0 and (rr.stdout.strip().splitlines() or ["x"])[-1].isdigit() else -1
+        if nre <= 0:
+            failures.append(f"N3: tools/reorder_defs.py failed on the scratch copy: {rr.stderr[-200:]}")
+        else:
+            rc, v, k = _run_check(prop, n3root)
+            ok = rc == 0 and k == k0
+            results.append({"variant": "N3:runs of plain definitions reversed, SQL files re-indented and commented", "edits": nre, "expected": "silent, same known findings", "exit": rc, "ok": ok})
+            if not ok:
+                failures.append(f"N3 (behaviour-preserving re-ordering of definitions, {nre} edits): exit {rc}; " + ("; ".join(x[:200] for x in v[:2]) if v else f"known findings differ: {sorted(set(k) ^ set(k0))[:2]}"))
         # S*/F*
         vars_ = _variants(prop)
 
